@@ -116,6 +116,10 @@ class Collector:
                 fps.append("hang::" + r["hang"])
             if fp in fps:
                 confirmed.append(dict(fingerprint=fp, what=c["what"], case=c["case"], count=c["count"]))
+            elif fp.startswith("hang::") and "hang" not in r and "crash" not in r:
+                # the per-path alarm fired in the (much slower) instrumented run but the native run terminates:
+                # a slow path, not a hang.  Counted as not analysed (coverage), not as a finding.
+                self.count("slow_paths_not_analysed", c["count"])
             else:
                 unconfirmed.append(dict(fingerprint=fp, what=c["what"], case=c["case"], native=r))
         validated, mismatches = 0, []
